@@ -130,6 +130,61 @@ PROBE_A = re.compile(r"\[a=(.*?)\]")
 
 # ====================================================================== the check
 
+INHERIT_SHAPES = [
+    # (base template, child template): the child overrides a block of the base and renders a partial / calls a macro from inside it
+    ("{% assign secret = 'LEAK' %}{% capture cap %}CAP{% endcapture %}<{% block b %}base{% endblock %}>",
+     "{% extends 'base' %}{% block b %}{% render 'p' %}{% endblock %}"),
+    ("{% assign secret = 'LEAK' %}{% for i in (7..7) %}<{% block b %}base{% endblock %}>{% endfor %}",
+     "{% extends 'base' %}{% block b %}{% render 'p' %}{% render 'p', y: 1 %}{% endblock %}"),
+    ("{% assign secret = 'LEAK' %}{% with cap: 'W' %}<{% block b %}base{% endblock %}>{% endwith %}",
+     "{% extends 'base' %}{% block b %}{% for i in (7..7) %}{% render 'p' %}{% endfor %}{% endblock %}"),
+    ("{% assign secret = 'LEAK' %}<{% block b %}{% render 'p' %}{% endblock %}>",
+     "{% extends 'base' %}{% block b %}[{{ block.super }}]{% endblock %}"),
+    ("{% assign secret = 'LEAK' %}{% capture cap %}CAP{% endcapture %}<{% block b %}base{% endblock %}>",
+     "{% extends 'base' %}{% block b %}{% macro m %}[{{ secret }}|{{ cap }}|{{ i }}|{{ g }}]{% endmacro %}{% call m %}{% endblock %}"),
+    ("{% assign secret = 'LEAK' %}<{% block b %}{% block c %}base{% endblock %}{% endblock %}>",
+     "{% extends 'base' %}{% block c %}{% render 'p' for items as i %}{% endblock %}"),
+]
+
+
+def inheritance_family(ck: Check) -> None:
+    """render / call from inside an overridden inheritance block: the partial (macro body) still sees only its arguments, its
+    bound variable and global data -- not what the base template assigned, captured or bound around the block (oracle only)."""
+    from liquid import DictLoader, Environment
+    import liquid.extra as ex
+
+    from ..core import classify_exc, run_async
+
+    part = "[{{ secret }}|{{ cap }}|{{ i }}|{{ g }}]"
+    for si, (base, child) in enumerate(INHERIT_SHAPES):
+        for clean in (False, True):
+            # the reference run: the same chain with the base template's local bindings removed
+            b = base
+            if clean:
+                b = b.replace("{% assign secret = 'LEAK' %}", "").replace("{% capture cap %}CAP{% endcapture %}", "")
+            env = Environment(loader=DictLoader({"base": b, "child": child, "p": part}), globals={"g": "G"})
+            ex.add_tags(env)
+            outs = []
+            for use_async in (False, True):
+                try:
+                    t = env.get_template("child")
+                    outs.append(("out", run_async(t.render_async(items=[1, 2])) if use_async else t.render(items=[1, 2])))
+                except Exception as e:  # noqa: BLE001
+                    outs.append(("err", classify_exc(e)))
+            if clean:
+                ref = outs
+            else:
+                got = outs
+        ck.note_case(("inherit", si))
+        ck.count("inheritance-shapes")
+        leak = any("LEAK" in o[1] or "CAP" in o[1] for o in got if o[0] == "out")
+        if leak or got[0] != got[1]:
+            ck.violation("impl-violation", f"render-inside-overridden-block-sees-base-locals:{si}",
+                         f"base {base!r} child {child!r} partial {part!r}: rendered {got}; the base template's locals must not reach the "
+                         f"partial / macro body (without them: {ref})",
+                         {"type": "inherit", "shape": si, "base": base, "child": child, "partial": part, "got": got, "reference": ref})
+
+
 def run(ck: Check) -> None:  # noqa: PLR0912, PLR0915
     ck.rule = (
         "seeded partial / macro bodies (probes of x,y,z; assign, capture, increment/decrement of those names; nested for/with/if to depth "
@@ -155,6 +210,7 @@ def run(ck: Check) -> None:  # noqa: PLR0912, PLR0915
         "global data is the same object for caller and partial: a partial that MUTATES shared data is outside the property",
     ]
     ck.proof()
+    inheritance_family(ck)
     L.STRINGS.reset()
     rng = ck.rng
 
@@ -348,6 +404,28 @@ def run(ck: Check) -> None:  # noqa: PLR0912, PLR0915
 def replay(data) -> int:
     case = data["case"]
     t = case.get("type")
+    if t == "inherit":
+        class _Ck:  # re-run the one shape through the same oracle
+            def __init__(self):
+                self.v = []
+
+            def note_case(self, *a, **k):
+                pass
+
+            def count(self, *a, **k):
+                pass
+
+            def violation(self, kind, sig, what, d, no_input=False):
+                self.v.append((sig, what))
+        global INHERIT_SHAPES
+        saved, INHERIT_SHAPES = INHERIT_SHAPES, [(case["base"], case["child"])]
+        ck_ = _Ck()
+        inheritance_family(ck_)
+        INHERIT_SHAPES = saved
+        for sig, what in ck_.v:
+            print(what)
+        print(("VIOLATION reproduced" if ck_.v else "not reproduced") + f" property={data['property']}")
+        return 1 if ck_.v else 0
     if t == "single" and "sync" in case:
         s, a = L.render_json(case["case"], False), L.render_json(case["case"], True)
         print("template:", case["case"]["template"], "partials:", case["case"]["partials"])
